@@ -146,6 +146,14 @@ add("C06", "exploration", E1 + " (all strings up to length 3/4 over a 16-charact
     "shape; no module outside the field-type packages is imported; no tripwire fires.",
     "Rejection = any exception; refusing a well-formed name (keywords as type names) is counted, not judged.", "DESIGN.md C06")
 
+add("C16", "fault_enumeration", E3 + " applied to rdump's source list (every placement of up to 1/2 bad sources among good ones) x the option product, in-process rdump.main",
+    "skip x count x 6 selectors x {compiled, -n} x every source list of length 1..2 (3 thorough) over 5 good inputs (two type versions, nested "
+    "records, JSON, empty, compressed under a neutral name) with every placement of up to 1 (2) of 12 bad sources (missing, zero-byte, "
+    "garbage plain/gz/bz2/lz4/zst, torn mid-frame, cut at a boundary, torn gzip, gzip damaged in body/head): the output stream equals the "
+    "reference pipeline (intact prefixes -> reference selector -> slice); field/exclude lists x metadata overrides x --multi-timestamp x "
+    "13 writer kinds decode, each with its own independent parser, to the records of the reference projection/expansion models.",
+    "--count 0 means no limit; the intact prefix of a source with a damaged compressed body is undefined (only later sources judged).", "DESIGN.md C16")
+
 NOT_BUILT = "check not built yet in this round (design in DESIGN.md section 3); not claimed until it runs"
 
 
